@@ -614,4 +614,8 @@ def gen_stream_extras(rng):
         # the consumer edits the records it was handed
         d['mutate'] = rng.randint(1, 4)
 
+    if rng.chance(0.1):
+        # a second, unrelated reader alive and advanced alternately
+        d['shadow'] = rng.below(50)
+
     return d
